@@ -234,7 +234,7 @@ func runVamana(c fw.Case, env *fw.Env, prop string) *fw.CaseResult {
 	steps := c.Int("steps", 12)
 	insertOnly := style == "small-insert-only"
 	regimeCap := min(vc.Degree, 74) // the largest query searchSize is 75, so n <= searchSize-1 can be met up to 74
-	mutated := false                 // a delete or vector update happened
+	mutated := false                // a delete or vector update happened
 	nSearch := 30
 	if prop == "C10" {
 		nSearch = 6
